@@ -133,6 +133,16 @@ def straddle(x, ty):
     return [nxt(x, ty, -1), rnd_ty(x, ty), nxt(x, ty, 1), x * 0.99, x * 1.01]
 
 
+def ladder(x, ty):
+    """points at geometrically spaced distances either side of a switch value (a band of altered behaviour next
+    to a threshold may be as narrow as sqrt(eps) or as wide as a few per cent)"""
+    ks = (10, 20) if ty == 'f32' else (12, 26, 40)
+    out = []
+    for k in ks:
+        out += [x * (1 - 2.0 ** -k), x * (1 + 2.0 ** -k)]
+    return out
+
+
 def family_cases(fam, ty, tier, seed):
     """The case grid of one family x float type."""
     th = tier == 'thorough'
@@ -183,7 +193,7 @@ def family_cases(fam, ty, tier, seed):
     elif fam == 'gamma':
         kmin, kmax = (1e-3, 1e6) if ty == 'f64' else (1e-2, 1e4)
         ks = straddle(1.0, ty) + [kmin, 0.01, 0.1, 0.5, 2.0, 10.0, 100.0, 1e4, kmax]
-        for k in ks:
+        for k in ks + ladder(1.0, ty):
             add([k, 1.0], ('law', 'c03', 'switch'))
         for k, t in [(0.5, 2.0), (3.0, 0.5), (2.0, tiny), (0.3, tiny), (2.0, big / 1e6), (0.3, big / 1e6), (1.0, 1e3), (1.0, tiny), (50.0, 1e-3)]:
             add([k, t])
@@ -315,7 +325,7 @@ def family_cases(fam, ty, tier, seed):
             add([a, a * rnd.uniform(-0.99, 0.99)])
     elif fam == 'poisson':
         lmax = 1e15 if ty == 'f64' else 2.0 ** 20
-        for l in straddle(12.0, ty) + [1e-3, 0.1, 1.0, 3.0, 10.0, 20.0, 50.0, 100.0, 1e3, 1e5, 1e7 if ty == 'f64' else 2.0 ** 18, lmax]:
+        for l in straddle(12.0, ty) + ladder(12.0, ty) + [12.5, 13.0, 14.0, 15.0, 16.0, 18.0, 22.0, 27.0] + [1e-3, 0.1, 1.0, 3.0, 10.0, 20.0, 50.0, 100.0, 1e3, 1e5, 1e7 if ty == 'f64' else 2.0 ** 18, lmax]:
             add([l], ('law', 'c03', 'switch'))
         # derived field exp(-lambda) rounds to exactly 1: sampler must still return 0 and serialise
         for l in ([1e-17, 1e-300] if ty == 'f64' else [1e-8, 1e-30]):
@@ -335,6 +345,9 @@ def family_cases(fam, ty, tier, seed):
                      (10.0, 2.0), (10.0, 1e2), (1000.0, 1.0), (1000.0, 1.5), (1000.0, 0.3), (nmax, 1.0), (nmax, 2.0), (nmax, 0.5), (nmax, 0.0),
                      (1.5, 1.0), (7.5, 0.7), (100.5, 2.0), (3.0, 1e2), (5.0, 3.0)]:
             add([n, s], ('law', 'c03', 'switch'))
+        for s in ladder(1.0, ty):
+            add([1e7 if ty == 'f64' else 2.0 ** 20, s], ('law', 'c03', 'switch'))
+            add([1000.0, s], ('law', 'c03', 'switch'))
         add([10.0, math.inf], ('c03', 'switch'))
         add([math.inf, 2.0], ('c03',))
         for _ in range(R // 2):
